@@ -2,7 +2,7 @@
 Props/C07.lean — property C07 "IPSet algebra and queries agree with plain set theory on
 addresses".  Property theorems only; lemmas in Lemmas/IPSetL1..L5.
 -/
-import NetaddrVerif.Lemmas.IPSetL7
+import NetaddrVerif.Lemmas.IPSetL9
 namespace NV.C07
 open NV NV.IPSet
 
@@ -19,6 +19,17 @@ theorem issubset_iff (s t : St) (hs : Inv s) (ht : Inv t) :
 /-- `issuperset` / `>=` -/
 theorem issuperset_iff (s t : St) (hs : Inv s) (ht : Inv t) :
     issuperset s t = true ↔ ∀ ver a, denS t ver a → denS s ver a := IPSet.issuperset_iff s t hs ht
+
+/-- `A & B` (`intersection`): for canonical operands the result is canonical and contains
+    exactly the addresses common to both — for every pair of sets, any mix of families -/
+theorem intersection_spec (s t : St) (hs : Inv s) (ht : Inv t) :
+    Inv (intersection s t) ∧
+    ∀ ver a, denS (intersection s t) ver a ↔ denS s ver a ∧ denS t ver a :=
+  IPSet.intersection_spec s t hs ht
+
+/-- `isdisjoint` -/
+theorem isdisjoint_iff (s t : St) (hs : Inv s) (ht : Inv t) :
+    isdisjoint s t = true ↔ ∀ ver a, ¬ (denS s ver a ∧ denS t ver a) := IPSet.isdisjoint_iff s t hs ht
 
 /-- iteration order: `iter_cidrs()` (hence `__iter__`, `repr`) ascends by address with IPv4
     before IPv6 (`lin` places the IPv6 space after the IPv4 space) -/
